@@ -27,3 +27,13 @@ package lifecycle
 // slow) worker close, so a sibling's later, collateral error cannot win the tomb.
 //verif:closure of (*Service).runPipeline calling (*Worker).Do (workersWg, registered, w, ctx, s, rp, sourceID) (ret)
 //verif:call[root-cause-wins-the-tomb] (*Worker).Close requires result_of("(*Worker).Do", 0) != nil ==> called("tomb.(*Tomb).Kill")
+
+// C10: bounded, backed-off recovery (arch-v2)
+//verif:func (*Service).StartWithBackoff(s, ctx, rp) (err)
+//verif:call[restart-only-within-budget-after-backoff-for-current-run] (*Service).Start requires (s.errRecoveryCfg.MaxRetries == -1 || attempt <= s.errRecoveryCfg.MaxRetries) && called("time.After") && result_of("csync.(*Map).Get", 1) && result_of("csync.(*Map).Get", 0) == rp && called("(*Bool).Load@isGracefulShutdown") && !result_of("(*Bool).Load@isGracefulShutdown", 0)
+//verif:call[backoff-delay] time.After requires arg0 == result_of("backoff.(*Backoff).ForAttempt", 0)
+//verif:ensures[budget-exhausted-is-fatal] s.errRecoveryCfg.MaxRetries != -1 && attempt > s.errRecoveryCfg.MaxRetries ==> is_fatal(err) && !called("(*Service).Start")
+//verif:ensures[one-attempt-counted] count("atomic.(*Int64).Add") == 1
+
+//verif:func (*Service).recoverPipeline(s, ctx, rp) (err)
+//verif:call[recovering-status-first] (*Service).StartWithBackoff requires arg2 == rp
